@@ -211,6 +211,18 @@ def _anchors():
     return _ANCHORS
 
 
+_KNOWN = None
+
+
+def known_functions():
+    """names of all workspace functions of the reference tree (frozen by bin/mkanchors next to the signatures)"""
+    global _KNOWN
+    if _KNOWN is None:
+        p = os.path.join(os.path.dirname(os.path.abspath(__file__)), "known_fns.json")
+        _KNOWN = set(json.load(open(p))) if os.path.exists(p) else set()
+    return _KNOWN
+
+
 def const_int(k):
     """python int of an exported scalar constant (sign-aware by type name)"""
     v = int(k["int"])
